@@ -337,7 +337,7 @@ class Gen:
         if r.chance(1, 4):
             body = inner + ([] if r.chance(1, 5) else [f"unlock {m}"])
             return [f"trylock {m}", f"if wouldblock skip {len(body)}"] + body
-        if r.chance(1, 30):
+        if r.chance(1, 30) and not self.p.get("safe"):
             return [f"lock {m}", f"lock {m}"]          # re-entrant: diagnosed
         if r.chance(1, 8):
             return [f"lock {m}"] + inner               # guard held until task end
